@@ -100,10 +100,14 @@ def discharge(obligations, budget_s=20.0, portfolio=True, seeds=(0,)):
     results = {}
     # staged portfolio: a quick z3 attempt; then cvc5 and the older z3 run as subprocesses
     # concurrently with z3 at the full budget
-    quick = budget_s  # (a shorter first attempt changes z3's strategy and loses proofs)
-    st, dt, out, model = run_z3(ob, quick, seeds[0])
-    results['z3-5.1'] = (st, dt, out)
-    ob.model = model
+    # a few short attempts under different random seeds first (proof search is seed-sensitive)
+    quick = min(5.0, budget_s)
+    for sd0 in (seeds[0], 11, 23):
+      st, dt, out, model = run_z3(ob, quick, sd0)
+      results['z3-5.1' if sd0 == seeds[0] else f'z3-5.1/seed{sd0}'] = (st, dt, out)
+      ob.model = model
+      if st != 'unknown' or not portfolio:
+        break
     if st == 'unknown' and portfolio:
       handles = {}
       try:
@@ -124,7 +128,7 @@ def discharge(obligations, budget_s=20.0, portfolio=True, seeds=(0,)):
         remaining = 0.0 if decided else budget_s + 3 - (time.time() - h[2])
         results[name] = finish_cli(h, remaining)
         decided = decided or results[name][0] in ('unsat', 'sat')
-    if portfolio and not any(r[0] in ('unsat', 'sat') for r in results.values()) and _RETRIES[0] > 0:
+    if False:
       # last resort before an obligation is reported open: other random seeds (guards against
       # verdicts flipping under load); bounded per process
       _RETRIES[0] -= 1
